@@ -97,6 +97,33 @@ func c18(c *Ctx) {
 	}
 	// "group parameters that pass the validity checks": whatever else the check of (g, p) tests, it admits every
 	// generator the specification allows
+	// the 'no password' answer means the password was empty, and nothing else: the (nil, nil) exit of
+	// getInputCheckPassword lies behind the equal edge of password == "" (a second disjunct - an empty B, a missing
+	// algorithm - would answer 'no password' for values that have to be refused)
+	r.Rule("R18.Y", "every return of getInputCheckPassword with a nil answer and a nil error is reachable only through the equal edge of the test password == \"\"", 1)
+	if f := c.fn("R18.Y", load.SrpPkg, "", "getInputCheckPassword"); f != nil && len(f.Params) >= 1 {
+		var pass []an.Edge
+		for _, i := range an.Ifs(f) {
+			cd, ok := an.Classify(i)
+			if ok && cd.Kind == "eq" && ((cd.X == ssa.Value(f.Params[0]) && isConstString(cd.Y, "")) || (cd.Y == ssa.Value(f.Params[0]) && isConstString(cd.X, ""))) {
+				pass = append(pass, cd.EdgeWhen(true))
+			}
+		}
+		var exits []ssa.Instruction
+		for _, b := range f.Blocks {
+			for _, in := range b.Instrs {
+				if ret, ok := an.AsReturn(in); ok && len(ret.Results) == 2 && an.IsNilConst(an.RetVal(ret, 0)) && an.IsNilConst(an.RetVal(ret, 1)) {
+					exits = append(exits, in)
+				}
+			}
+		}
+		if len(pass) == 0 || len(exits) == 0 {
+			r.Undecide("R18.Y", "no-password:only-for-the-empty-password", c.pos(f.Pos()), sprintf("%d test(s) of password == \"\", %d (nil, nil) exit(s)", len(pass), len(exits)))
+		} else {
+			un := an.Guarded(f, pass, exits)
+			r.Check(len(un) == 0, "R18.Y", "no-password:only-for-the-empty-password", c.pos(exits[0].Pos()), sprintf("%d (nil, nil) exit(s), %d reachable without the password having been found empty", len(exits), len(un)))
+		}
+	}
 	r.Rule("R18.G", "for g = 2..7 the group check dhHandshakeCheckConfigIsError can answer false (not an error) when its tests of g against constants are decided for that value", 6)
 	if f := c.fn("R18.G", load.SrpPkg, "", "dhHandshakeCheckConfigIsError"); f != nil && len(f.Params) >= 1 {
 		isG := func(v ssa.Value) bool {
